@@ -4,7 +4,7 @@
 //   T <code> <chunk hex>,<chunk hex>,...          (empty list: '-')
 //   U <code> <max response size> <item,...>   streamed response built with every way of putting data into a ResponseStream:
 //        w<hex> write, e write of 0 bytes, l<hex> << const char*, i<n> << int, u<n> << uint64_t, c<hex> << char,
-//        b0|b1 << bool, a<hex> << char[16] holding a shorter text, f flush
+//        b0|b1 << bool, a<hex> << char[16] holding a shorter text, f flush, m move the stream object
 //     -> U [threw] <captured bytes hex, header lines sorted>
 //   Q <method idx> <path hex> <query k=v,.. hex|-> <cookies n=v,.. hex|-> <body hex>
 // Output (head = status/request line first, the other header lines sorted):
@@ -20,6 +20,7 @@
 
 #include "pv_net.h"
 #include <cstring>
+#include <memory>
 
 #include "pv_util.h"
 
@@ -130,9 +131,13 @@ public:
             // every way of putting data into a response stream
             try
             {
-                auto stream = response.stream(static_cast<Http::Code>(p.code));
+                auto first = response.stream(static_cast<Http::Code>(p.code));
+                // the stream lives in a holder so that an item can move it (into a producer object, a lambda, a thread:
+                // what streaming is for) with whatever is buffered at that point
+                std::unique_ptr<Http::ResponseStream> holder(new Http::ResponseStream(std::move(first)));
                 for (auto& it : p.items)
                 {
+                    Http::ResponseStream& stream = *holder;
                     std::string arg = it.size() > 1 ? it.substr(1) : std::string();
                     switch (it[0])
                     {
@@ -163,10 +168,11 @@ public:
                         break;
                     }
                     case 'f': stream.flush(); break;
+                    case 'm': holder.reset(new Http::ResponseStream(std::move(stream))); break;
                     default: break;
                     }
                 }
-                stream.ends();
+                holder->ends();
             }
             catch (const std::exception&)
             {
